@@ -45,8 +45,10 @@ func init() {
 			}
 		}()
 		for task := range recyclerCh {
-			recycler := getRecyclerOfResource(task.resource)
-			recycler.scheduleNodes(task.nodes)
+			// The rule of the resource may have been removed since the task was queued.
+			if recycler := getRecyclerOfResource(task.resource); recycler != nil {
+				recycler.scheduleNodes(task.nodes)
+			}
 		}
 	}()
 }
@@ -70,6 +72,7 @@ func getRecyclerOfResource(resource string) *Recycler {
 		rule := getOutlierRuleOfResource(resource)
 		if rule == nil {
 			logging.Error(errors.New("nil outlier rule"), "Nil outlier rule in getRecyclerOfResource()")
+			return nil
 		} else {
 			if rule.RecycleIntervalS == 0 {
 				recycler.interval = 10 * time.Minute
